@@ -1,10 +1,13 @@
 import Pw.Core.Proto
 import Pw.C13.Spec
+import Pw.C13.OrientModel
 open Proto
 
 /-! driver requests of C13
 
 `c13run cls=pag m=2 ops=ae:0:0.-1:1.0;ml:3;cp`  → one `ok|<state>` / `err|<state>` per operation, `;`-separated
+`c13crun m=2 ops=ae:1:0.-1:1.0;ou:1.0:0.-1;cp`  → the same for a StationaryTimeSeriesCPDAG history that may
+   contain `ou:<u>:<v>` = `orient_uncertain_edge(u, v)` (model `C13.crun`); `pre=<ops>` is run first, unreported
 `c13inv kinds=d,c,u,u m=2 N=0.0,0.1 L=0.1>1.0,0.2>1.1|||`  → `T` / `F` (`stationaryDec` on an observed state)
 
 nodes in operations: `<var>.<time index>`; nodes in states: `<var>.<lag>` -/
@@ -78,6 +81,25 @@ def handleRun : Handler := fun a =>
     let rs := run cfg (init cfg (a.nat "m")) ops
     ";".intercalate (rs.map fun r => (if r.2 then "err|" else "ok|") ++ fmtState r.1)
 
+def parseCOp (s : String) : Option COp :=
+  match s.splitOn ":" with
+  | ["ou", u, v] => match parseTNode u, parseTNode v with
+    | some u, some v => some (.orient u v)
+    | _, _ => none
+  | _ => (parseOp s).map .op
+
+/-- CPDAG histories with `orient_uncertain_edge` -/
+def handleCRun : Handler := fun a =>
+  let split := fun (k : String) => ((a.get k).splitOn ";").filter (· ≠ "")
+  let preS := split "pre"
+  let opsS := split "ops"
+  let pre := preS.filterMap parseCOp
+  let ops := opsS.filterMap parseCOp
+  if ops.length ≠ opsS.length || pre.length ≠ preS.length then "bad-op" else
+  let s0 := pre.foldl (fun s op => (cstep s op).1) (init cfgCpdag (a.nat "m"))
+  let rs := crun s0 ops
+  ";".intercalate (rs.map fun r => (if r.2 then "err|" else "ok|") ++ fmtState r.1)
+
 def parseNode (s : String) : Option Node :=
   match s.splitOn "." with
   | [x, t] => match x.toNat?, t.toNat? with
@@ -108,5 +130,5 @@ def handleInv : Handler := fun a =>
   let layers := (kinds.zip layersS).map fun (k, es) => (⟨k, (es.splitOn ",").filterMap parseEdge⟩ : Layer)
   fmtBool (stationaryDec ⟨nodes, a.nat "m", layers⟩)
 
-def handlers : List (String × Handler) := [("c13run", handleRun), ("c13inv", handleInv)]
+def handlers : List (String × Handler) := [("c13run", handleRun), ("c13crun", handleCRun), ("c13inv", handleInv)]
 end C13
